@@ -4,6 +4,7 @@
        one other permitted child (each) | all later children | all earlier children | all permitted children
        | for repeatable mixed content (a:p r/br/fld, p:spTree shapes) every ordering of two kinds
        | duplicates of a ZeroOrOne child (for "remove removes all")
+       | two members of one choice group, each ordered pair (for "change to leaves exactly one")
        | SUBSETS: for element types with <= MAXSLOTS slots every schema-permitted subset of the slots (thorough)
    and only schema-PERMITTED ones: required slots are always populated (except the slot of the child being added), an
    exclusive (non-repeatable choice) slot contributes exactly one alternative - each in turn (rotation j).
@@ -54,10 +55,14 @@ FamPairs(c, k) ==      \* repeatable mixed content: every ordering of two kinds,
 FamDup(c) ==           \* the child twice (not schema-permitted; only RemoveRemovesAll is judged there)
   UNION {{Flat(With(Base(c, Rk(c, c.decls[x].child), S, 1), Rk(c, c.decls[x].child), <<c.decls[x].child, c.decls[x].child>>)) : S \in {{}, All(c)}}
            : x \in {y \in DOMAIN c.decls : c.decls[y].kind = "ZeroOrOne"}}
+FamDupChoice(c) ==     \* two different members of one choice group (not schema-permitted; "change to leaves exactly one" is judged)
+  UNION {{Flat(With(Base(c, Rk(c, c.decls[x].child), S, 1), Rk(c, c.decls[x].child), <<c.decls[x].group[a], c.decls[x].group[b]>>)) :
+            S \in {{}, All(c)}, a \in DOMAIN c.decls[x].group, b \in DOMAIN c.decls[x].group}
+           : x \in {y \in DOMAIN c.decls : c.decls[y].kind = "Choice" /\ Known(c, c.decls[y].child) /\ Len(c.decls[y].group) >= 2}}
 FamSubsets(c, k) ==    \* every schema-permitted subset of the slots
   IF SUBSETS /\ N(c) <= MAXSLOTS THEN {Flat(Base(c, k, S, j)) : S \in SUBSET All(c), j \in Rots(c)} ELSE {}
 
-Contexts(c) == FamDup(c) \cup UNION {FamSets(c, k) \cup FamOne(c, k) \cup FamPairs(c, k) \cup FamSubsets(c, k) : k \in OwnSlots(c)}
+Contexts(c) == FamDup(c) \cup FamDupChoice(c) \cup UNION {FamSets(c, k) \cup FamOne(c, k) \cup FamPairs(c, k) \cup FamSubsets(c, k) : k \in OwnSlots(c)}
 
 \* constant-level table (TLC evaluates a constant definition once)
 CtxOf == [k \in DOMAIN Cases |-> Contexts(Cases[k])]
@@ -98,7 +103,7 @@ TypeOK == /\ st = Sink \/ st.cls \in DOMAIN Cases
           /\ depth \in 0..DEPTH
 InitPermitted == depth = 0 => LET c == Cases[st.cls]
                               IN \/ \E x \in DOMAIN c.decls : PermittedFor(c, st.kids, c.decls[x].child)
-                                 \/ st.kids \in FamDup(c)
+                                 \/ st.kids \in FamDup(c) \cup FamDupChoice(c)
 
 ASSUME PrintT(<<"NCASES", ToJson([cases |-> Len(Cases), decls |-> FoldLeft(LAMBDA a, c : a + Len(c.decls), 0, Cases),
                                   contexts |-> FoldLeft(LAMBDA a, k : a + Cardinality(CtxOf[k]), 0, [k \in DOMAIN Cases |-> k])])>>)
